@@ -22,3 +22,25 @@ verus! {
 #[verifier::external_body]
 pub fn opaque_string() -> String { String::new() }
 }
+pub mod stdax2 {
+    use vstd::prelude::*;
+    verus! {
+    // `to_string()` of a String is that string (vstd states this for str only)
+    #[verifier::external_body]
+    pub broadcast proof fn axiom_to_string_string(s: &String, r: String)
+        ensures #[trigger] vstd::string::to_string_from_display_ensures::<String>(s, r) ==> r@ == s@ {}
+    }
+}
+verus! {
+pub assume_specification<'a> [<String as PartialEq<&'a str>>::eq] (a: &String, b: &&str) -> (r: bool)
+    ensures r == (a@ == b@);
+}
+verus! {
+pub assume_specification<'a> [<&'a str as PartialEq<String>>::eq] (a: &&'a str, b: &String) -> (r: bool)
+    ensures r == (a@ == b@);
+}
+verus! {
+pub assume_specification<T: std::clone::Clone> [<[T]>::to_vec] (s: &[T]) -> (r: std::vec::Vec<T>)
+    ensures r@.len() == s@.len(),
+        forall|i: int| 0 <= i < s@.len() ==> call_ensures(T::clone, (&#[trigger] s@[i],), r@[i]);
+}
